@@ -3,7 +3,7 @@
 Cell arrays are `SymArr` index functions with `as_type = np.ndarray`: shape (rows, cols) with symbolic rows.
 Every model states the library's documented behaviour only (nothing about quantem):
 
-  np.zeros(shape)            all-zero array of that shape (new object)
+  np.zeros / np.ones / np.full(shape[, v])   constant array of that shape (new object); np.zeros_like / ones_like / empty_like(a): same shape as a; reversed(list) = the list backwards
   np.empty(shape)            array of that shape, arbitrary contents (new object)
   np.hstack([a, b, ...])     2-D: column-wise concatenation, equal row counts required (ValueError otherwise), new object
   np.vstack([a, b, ...])     2-D: row-wise concatenation, equal column counts required (ValueError otherwise), new object
@@ -125,6 +125,45 @@ def install(reg):
         return ndarray(shape, lambda *i: 0.0, "real")
 
     M[np.zeros] = m_zeros
+
+    def m_ones(interp, shape, dtype=None, **kw):
+        shape = _shape_of(shape)
+        if not contains_sym(shape):
+            return interp.native(np.ones, shape, dtype=dtype, **kw)
+        return ndarray(shape, lambda *i: 1.0, "real")
+
+    M[np.ones] = m_ones
+
+    def m_full(interp, shape, fill_value, dtype=None, **kw):
+        shape = _shape_of(shape)
+        if not contains_sym((shape, fill_value)):
+            return interp.native(np.full, shape, fill_value, dtype=dtype, **kw)
+        return ndarray(shape, lambda *i: fill_value, "real")
+
+    M[np.full] = m_full
+
+    def _like(f, val):
+        def h(interp, x, dtype=None, **kw):
+            if not isinstance(x, SymArr):
+                return interp.native(f, x, dtype=dtype, **kw)
+            if val is None:
+                a = interp.ctx.fresh_arr("np_empty_like", x.shape, "real")
+                a.as_type = np.ndarray
+                return a
+            return ndarray(x.shape, lambda *i: val, "real")
+        return h
+
+    M[np.zeros_like] = _like(np.zeros_like, 0.0)
+    M[np.ones_like] = _like(np.ones_like, 1.0)
+    M[np.empty_like] = _like(np.empty_like, None)
+
+    def c_reversed(interp, xs):
+        vals = interp.iter_values(xs)
+        if vals is None:
+            raise OutOfSubset("reversed() of a symbolic-length sequence")
+        return list(reversed(vals))
+
+    reg.ctor_models[reversed] = c_reversed
 
     def m_empty(interp, shape, dtype=None, **kw):
         shape = _shape_of(shape)
